@@ -14,7 +14,7 @@ RULE = ("(a) every subcircuit object returned by the emulator for basis-state pr
         "counting. non-trivial = n >= 2 (bit order observable); distinct = (mode, n, program or outcome list hash)")
 ASSUMPTIONS = ["bits(k, n): character i of the string = bit i of the integer (qubit 0 leftmost and least significant)"]
 TIERS = {"quick": {"shards": 8, "budget_s": 60}, "thorough": {"shards": 16, "budget_s": 300}}
-REQUIRE = {"mode:frequencies": 50, "mode:job": 50, "mode:emulator": 100, "mode:outputs": 50, "mode:direct": 50, "non-palindromic-certain-outcomes": 50,
+REQUIRE = {"many-shot-output-lists": 2, "mode:frequencies": 50, "mode:job": 50, "mode:emulator": 100, "mode:outputs": 50, "mode:direct": 50, "non-palindromic-certain-outcomes": 50,
            "outcomes-as-int": 500, "outcomes-as-str": 500, "views-checked": 300}
 
 
@@ -336,6 +336,12 @@ def shard(ctx):
         for j in range(0, len(vals), chunk):
             if ctx.mine(j // chunk + n):
                 process(ctx, {"mode": "outputs", "n": n, "values": vals[j:j + chunk]})
+    # many shots of one outcome: tallies are counts, however large
+    if ctx.index < 2:
+        n = 1 + ctx.index
+        many = [ctx.index] * (66000 + 500 * ctx.index) + [0, 1, 1]
+        process(ctx, {"mode": "outputs", "n": n, "values": many, "many": True})
+        rec.count("many-shot-output-lists")
     rec.exhaustive = True
     rec.note("exhaustive_outcomes", "every outcome 0..2^n-1 for n<=%d supplied as int, as str and mixed" % top)
     i = 0
